@@ -484,10 +484,16 @@ func (s Subtitles) WriteToWebVTT(o io.Writer) (err error) {
 	}
 	c = append(c, []byte("\n\n")...)
 
+	// Loop through styles in a deterministic order
 	var style []string
-	for _, s := range s.Styles {
-		if s.InlineStyle != nil {
-			style = append(style, s.InlineStyle.WebVTTStyles...)
+	var styleIDs []string
+	for id := range s.Styles {
+		styleIDs = append(styleIDs, id)
+	}
+	sort.Strings(styleIDs)
+	for _, id := range styleIDs {
+		if s.Styles[id].InlineStyle != nil {
+			style = append(style, s.Styles[id].InlineStyle.WebVTTStyles...)
 		}
 	}
 
